@@ -26,7 +26,7 @@ func init() {
 		Level: "exploration",
 		Rule: "seeds = all generated nestings to depth 1 (quick) / 2 (thorough) with one effectful statement per block plus the hand-written seed corpus (handlers, variadics, typed functions); " +
 			"mutation operators, one per static rule of the statement, applied AT EVERY POSITION where they apply: R1 undeclared variable, R2 unused variable, R3 redeclaration in the same " +
-			"scope, R4 type mismatch, R5 wrong argument count, R6 missing return, R7 unreachable code, R8 break outside a loop, R9 value returned from handler/procedure (and return at top " +
+			"scope, R4 type mismatch, R5 wrong argument count, R6 missing return, R7 unreachable code, R8 break outside a loop, R12 two parameters with one name, R13 a variable of one if-branch used in the next branch, R9 value returned from handler/procedure (and return at top " +
 			"level), R10 unknown function, R11 stray text after a statement / after end / else / headers. A mutant is judged only if the reference static checker (docs/spec.md rules) rejects " +
 			"it (R11: invalid by the grammar). Oracle: Parse returns located errors (C03 position oracle), Evaluator.Run returns them with an empty effect trace, and the evy run binary prints " +
 			"nothing on stdout, something on stderr and exits non-zero. Non-trivial = every judged mutant.",
@@ -40,7 +40,7 @@ func init() {
 		},
 		DeadlineQuick: 5 * time.Minute, DeadlineThorough: 25 * time.Minute,
 		Vacuity: func(m *fw.Result) string {
-			for _, r := range []string{"R1", "R2", "R3", "R4", "R5", "R6", "R7", "R8", "R9", "R10", "R11"} {
+			for _, r := range []string{"R1", "R2", "R3", "R4", "R5", "R6", "R7", "R8", "R9", "R10", "R11", "R12", "R13"} {
 				if m.Counters["judged:"+r] == 0 {
 					return "rule produced no judged mutant: " + r
 				}
@@ -192,6 +192,66 @@ func c05Mutants(prog *pt.Prog, rule string) []*pt.Prog {
 				}
 				return ss
 			})
+		case "R12": // two parameters with the same name
+			m = pt.MapBlocks(prog, func(ss []pt.Stmt, cx pt.BlockCtx) []pt.Stmt {
+				out := append([]pt.Stmt(nil), ss...)
+				for i, st := range ss {
+					dup := func(ps []pt.Param) []pt.Param {
+						if len(ps) < 2 || ps[0].Name == "_" {
+							return nil
+						}
+						q := append([]pt.Param(nil), ps...)
+						q[len(q)-1].Name = q[0].Name
+						return q
+					}
+					switch v := st.(type) {
+					case pt.Func:
+						if q := dup(v.Params); q != nil && site() {
+							v.Params = q
+							out[i] = v
+							return out
+						}
+					case pt.On:
+						if q := dup(v.Params); q != nil && site() {
+							v.Params = q
+							out[i] = v
+							return out
+						}
+					}
+				}
+				return ss
+			})
+		case "R13": // a variable declared in one branch of an if statement used in the next branch
+			m = pt.MapBlocks(prog, func(ss []pt.Stmt, cx pt.BlockCtx) []pt.Stmt {
+				out := append([]pt.Stmt(nil), ss...)
+				for i, st := range ss {
+					v, ok := st.(pt.If)
+					if !ok {
+						continue
+					}
+					nb := len(v.Blocks)
+					for b := 0; b < nb; b++ {
+						last := b == nb-1
+						if last && v.Else == nil {
+							continue
+						}
+						if !site() {
+							continue
+						}
+						w := v
+						w.Blocks = append([][]pt.Stmt(nil), v.Blocks...)
+						w.Blocks[b] = append([]pt.Stmt{pt.InferDecl{Name: "zzb", X: pt.N(1)}, pt.Print(pt.V("zzb"))}, v.Blocks[b]...)
+						if last {
+							w.Else = append([]pt.Stmt{pt.Print(pt.V("zzb"))}, v.Else...)
+						} else {
+							w.Blocks[b+1] = append([]pt.Stmt{pt.Print(pt.V("zzb"))}, v.Blocks[b+1]...)
+						}
+						out[i] = w
+						return out
+					}
+				}
+				return ss
+			})
 		case "R6": // missing return: delete each return statement of a function with a result
 			m = pt.MapBlocks(prog, func(ss []pt.Stmt, cx pt.BlockCtx) []pt.Stmt {
 				for i, s := range ss {
@@ -268,7 +328,7 @@ func runC05(w *fw.Worker) {
 		if ref.Check(prog) != nil {
 			return // not a valid seed
 		}
-		for _, rule := range []string{"R1", "R2", "R3", "R4", "R5", "R6", "R7", "R8", "R9", "R10"} {
+		for _, rule := range []string{"R1", "R2", "R3", "R4", "R5", "R6", "R7", "R8", "R9", "R10", "R12", "R13"} {
 			for _, m := range c05Mutants(prog, rule) {
 				err := ref.Check(m)
 				if _, reject := err.(*ref.TypeErr); !reject {
@@ -386,6 +446,44 @@ func checkC05(w *fw.Worker, in c05Input, cli bool) *fw.Violation {
 }
 
 // runEvy runs the evy binary built from the working tree on a temporary file holding src.
+// runEvyFiles writes the named files into a scratch directory and runs the evy binary with args followed by the file names (in order).
+// It returns the exit status and the files' contents afterwards.
+func runEvyFiles(args []string, names []string, contents []string) (stderr string, code int, after []string, err error) {
+	bin := os.Getenv("VERIF_EVY")
+	if bin == "" {
+		return "", 0, nil, fmt.Errorf("VERIF_EVY not set")
+	}
+	dir, err := os.MkdirTemp(os.Getenv("VERIF_BUILD_DIR"), "evyf-")
+	if err != nil {
+		return "", 0, nil, err
+	}
+	defer os.RemoveAll(dir)
+	full := append([]string(nil), args...)
+	for i, n := range names {
+		f := filepath.Join(dir, n)
+		if err := os.WriteFile(f, []byte(contents[i]), 0o644); err != nil {
+			return "", 0, nil, err
+		}
+		full = append(full, f)
+	}
+	cmd := exec.Command(bin, full...)
+	var se bytes.Buffer
+	cmd.Stderr = &se
+	cmd.Env = append(os.Environ(), "NO_COLOR=1")
+	if rerr := cmd.Run(); rerr != nil {
+		ee, ok := rerr.(*exec.ExitError)
+		if !ok {
+			return "", 0, nil, rerr
+		}
+		code = ee.ExitCode()
+	}
+	for _, n := range names {
+		b, _ := os.ReadFile(filepath.Join(dir, n))
+		after = append(after, string(b))
+	}
+	return se.String(), code, after, nil
+}
+
 func runEvy(args []string, src string, stdin string) (stdout, stderr string, code int, err error) {
 	bin := os.Getenv("VERIF_EVY")
 	if bin == "" {
